@@ -213,7 +213,7 @@ def c04(tier):
 # ------------------------------------------------------------------------------------------- C13
 @prop("C13",
       functions=["cellToChildPos", "childPosToCell", "validateChildPos", "cellToChildrenSize", "cellToParent", "_ipow", "isPentagon", "iterStepChild"],
-      bounds={"quick": "per (parentRes, childRes) pair with childRes-parentRes <= 2 (45 pairs): all valid parents x all int64 positions (FWD), all valid children (BWD, ORDER); error codes: all int resolutions",
+      bounds={"quick": "per (parentRes, childRes) pair with childRes-parentRes <= 2 (45 pairs): all valid parents x all int64 positions (FWD), all valid children (BWD, ORDER); error codes: all int resolutions; pentagon parents at the deep pairs (0,12) and (3,15) (FWD)",
               "thorough": "all 136 (parentRes, childRes) pairs; pairs whose query exceeds the cap are listed as undecided"},
       outside="pairs reported undecided (deep 7^k division chains)",
       assumptions=["iterator invariant of C04 for the ORDER clause"],
@@ -235,11 +235,11 @@ def c13(tier):
                 else:
                     js.append(j)
     # deep pairs restricted to pentagon parents (where the offsets differ from plain base-7 arithmetic)
-    for (p, c, t) in ((0, 12, "quick"), (0, 15, "quick"), (3, 15, "quick"), (1, 12, "thorough"), (2, 14, "thorough"), (0, 9, "thorough")):
+    for (p, c, t) in ((0, 12, "quick"), (0, 15, "thorough"), (3, 15, "quick"), (1, 12, "thorough"), (2, 14, "thorough"), (0, 9, "thorough")):
         dd = c - p
         us = {"_ipow.0": 6, "childPosToCell.0": dd + 2, "childPosToCell.1": dd + 2, "cellToChildPos.0": dd + 2, "cellToChildPos.1": dd + 2, "cellToParent.0": c + 2}
         for mode in ("FWD", "BWD"):
-            js.append(J("%spent_%d_%d" % (mode.lower(), p, c), "C13_childpos.c", ["-D" + mode, "-DPENTONLY", "-DPRES=%d" % p, "-DCRES=%d" % c], unwind=17, us=us, est=300, tier=t, timeout=1500, core=False, mem="M",
+            js.append(J("%spent_%d_%d" % (mode.lower(), p, c), "C13_childpos.c", ["-D" + mode, "-DPENTONLY", "-DPRES=%d" % p, "-DCRES=%d" % c], unwind=17, us=us, est=300, tier=(t if mode == "FWD" else "thorough"), timeout=3000, core=False, mem="M",
                         bound="pentagon parents only, parentRes=%d childRes=%d" % (p, c)))
     for p in (0, 3, 9, 15):
         j = J("err_%d" % p, "C13_childpos.c", ["-DERR", "-DPRES=%d" % p], unwind=17, us={"_ipow.0": 6}, est=20, bound="all int resolutions and positions, parents of res %d" % p)
